@@ -1,6 +1,6 @@
 (* C04: the theorems of Properties/C04.v, assembled from SortLemmas / Settle / Refute. *)
 From V Require Import Base.PyInt Gen.WireOps Model.SimKernel Model.Sort Spec.C04.
-From V Require Import Proofs.C04.SortLemmas Proofs.C04.Settle Proofs.C04.Refute.
+From V Require Import Proofs.C04.SortLemmas Proofs.C04.Settle Proofs.C04.Refute Proofs.C04.Chain.
 From Coq Require Import Permutation.
 Local Open Scope nat_scope.
 
@@ -85,12 +85,22 @@ Lemma selfloop_not_settled_refuted_thm : exists (d : design unit) (vs : list Z),
   single_driver (combs d) /\ ~ settled d (propagateAll d vs).
 Proof. exists inv_loop, [0%Z]. exact selfloop_not_settled. Qed.
 
-Lemma limit_refuted_thm : forall K, 1 <= K <= 32 ->
+Lemma limit_refuted_thm : forall K,
   let succ := chain_succ (S K) in let l := rev_chain (S K) in
   NoDup l /\ closed succ l /\ ranking succ l (fun x => x) /\
   sort_fuel succ K l = None /\ sort_fuel succ (S K) l = Some (seq 0 (S K)).
 Proof.
-  intros K HK succ l. destruct (limit_rejects K HK) as [H1 H2].
+  intros K succ l. destruct (limit_rejects_all K) as [H1 H2].
   repeat split; [apply rev_chain_nodup | apply chain_closed | apply chain_ranking | exact H1 | exact H2].
 Qed.
 
+Lemma pass_count_chain_thm : forall n K, 1 <= n ->
+  sort_fuel (chain_succ n) K (rev_chain n) = if K <? n then None else Some (seq 0 n).
+Proof. exact chain_passes. Qed.
+
+Lemma limit_1000_refuted_thm :
+  let n := S py4hw_loop_limit in
+  ranking (chain_succ n) (rev_chain n) (fun x => x) /\ sort_fuel (chain_succ n) py4hw_loop_limit (rev_chain n) = None.
+Proof.
+  intros n. split; [apply chain_ranking|]. exact (proj1 (limit_rejects_all py4hw_loop_limit)).
+Qed.
